@@ -251,12 +251,15 @@ def merge : List Bool → List Step → List Step → List (Bool × Step)
 
 def natDigits (n : Nat) : List Char := (Nat.repr n).toList
 
-/-- the name `write_to_textfile` builds, from the extracted parts -/
-def tmpName (parts : List TmpPart) (path : Path) (pid tid : Nat) : Path :=
+/-- the name `write_to_textfile` builds, from the extracted parts: `pid` is the pid of the calling process NOW,
+`importPid` the pid that was current when `prometheus_client.exposition` was imported (the two differ in a forked
+child), `tid` the calling thread's ident -/
+def tmpName (parts : List TmpPart) (path : Path) (pid importPid tid : Nat) : Path :=
   parts.flatMap fun
     | .path => path
     | .lit s => s
     | .pid => natDigits pid
+    | .cachedPid => natDigits importPid
     | .threadIdent => natDigits tid
     | .other _ => []
 
